@@ -75,7 +75,12 @@ LEVEL_TEXT = ('Theorems: the program regenerated from the current source equals 
               'raising, every entry made under any nesting of action methods carries the info of the outermost statement, also in '
               'histories with failures on one configurator (ainfo_stack_balanced, statement_entries_point_at_statement, '
               'history_statements_point_at_themselves); get_category lists, in every state, exactly the stored entries of the '
-              'category in ascending registration order (get_category_exact_and_sorted); for the Introspector state machine, for every operation sequence: '
+              'category in ascending registration order (get_category_exact_and_sorted), in every reachable state STRICTLY ascending '
+              'with all stored orders pairwise distinct and below the counter (reachable_orders, get_category_strictly_ascending); '
+              'unrelate of a pair withdraws exactly the links between the two objects in both directions and keeps the graph '
+              'symmetric, in states whose relation lists hold distinguishable registered objects without duplicates -- hypotheses '
+              'kept by relate and unrelate (unrelate_withdraws_exactly, unrelate_keeps_relations_symmetric, '
+              'relate_keeps_relation_lists); for the Introspector state machine, for every operation sequence: '
               'relations are symmetric and exact, get returns the latest registration, remove erases the entry, disabled '
               'introspection records nothing, only executed actions are recorded -- the last four also restated about the '
               'regenerated program (..._generated).')
